@@ -488,6 +488,10 @@ pub fn decode_tx(payload: &[u8]) -> Result<DTx, String> {
     Ok(d)
 }
 
+pub fn blake2b224(data: &[u8]) -> Vec<u8> {
+    tx3_cardano::pallas::crypto::hash::Hasher::<224>::hash(data).to_vec()
+}
+
 pub fn blake2b256(data: &[u8]) -> Vec<u8> {
     tx3_cardano::pallas::crypto::hash::Hasher::<256>::hash(data).to_vec()
 }
